@@ -572,6 +572,15 @@ def models():
             return err(UNIT)
         return ok(('member', a.node, i))
 
+    @reg(r'ZipArchive<File>>::by_index_raw$|ZipArchive::by_index_raw$')
+    def zip_by_index_raw(ctx, args, callee):
+        # the entry as it is stored: no decompression, no decryption — Ok for every member of an archive that could be opened
+        a = ctx.deref(args[0])
+        i = conc(args[1])
+        if i is None:
+            i = ctx.concretize(args[1], range(0, fs_of(ctx).max_members + 1))
+        return ok(('member', a.node, i))
+
     @reg(r'^(std::io::)?Error::kind$')
     def io_error_kind(ctx, args, callee):
         import zlib
